@@ -13,7 +13,7 @@ PROPS = ("C16",)
 
 
 def plan(tier, seed):
-    return ec.plan_e2e(seed, 16, MIX, 160 if tier == "quick" else 1600)
+    return ec.plan_e2e(seed, 16, MIX, 160 if tier == "quick" else 1600, nwcap=12 if tier == "quick" else 24)
 
 
 def nontrivial(run, I):
